@@ -152,6 +152,22 @@ def handle (st : DState) (line : String) : DState × String :=
         | some i => let (m, r) := st.multi.send i; ({ st with multi := m }, match r with | .ok _ => "ok" | .error e => "err " ++ e.name)
         | none => (st, "bad-op")
       | _ => (st, "bad-op")
+    | "addr" => match args with
+      | "fmt" :: port :: host => match parseNat? port, parseNats host with
+        | some p, some h => (st, showList ((formatAddress (h.map Char.ofNat) p).map Char.toNat))
+        | _, _ => (st, "bad-op")
+      | "parse" :: cps => match parseNats cps with
+        | some cs => (st, showExcept (fun (r : List Char × Nat) => s!"{r.2} " ++ showList (r.1.map Char.toNat))
+            (parseAddress (cs.map Char.ofNat)))
+        | none => (st, "bad-op")
+      | _ => (st, "bad-op")
+    | "cut" => match args with
+      | k :: rest =>
+        let groups := if rest.isEmpty then [] else (splitTracks rest).filter (fun g => !g.isEmpty)
+        match parseNat? k, groups.mapM parseMsg with
+        | some k, some ms => (st, s!"{completeWithin ms k} " ++ showExcept showMsgs (parseAll ((ms.flatMap encode).take k)))
+        | _, _ => (st, "bad-op")
+      | _ => (st, "bad-op")
     | "preset" => ({ st with p := {} }, "ok")
     | "pfeed" => match parseInts args with
       | some bs => let (p, o) := pstep st.p (.feed bs); ({ st with p := p }, o.show)
